@@ -13,6 +13,7 @@ Record proxy_obs := {
   po_health : option health;        (* the target's health afterwards (None when not assigned) *)
   po_err : bool;                    (* LastError <> "" afterwards *)
   po_stats_updated : bool;          (* series/total were replaced by this scrape's counts *)
+  po_clen : option N;               (* Content-Length, if the handler declared one to Prometheus *)
 }.
 Record proxy_case := { pc_req : preq N; pc_exact : bool (* chunk boundaries are those of the tee (no gzip layer) *); pc_obs : proxy_obs }.
 
@@ -53,6 +54,12 @@ Definition c12_case (c : proxy_case) : bool :=
      (Z.eqb (po_code o) 200 && bytes_eqb (po_body o) (concat chunks) && option_eqb N.eqb (po_ctype o) (Some ctype) &&
       negb (po_aborted o)))
   | _ => match po_body o with [] => true | _ => false end
+  end &&
+  (* a length declared to Prometheus is the length of what it is sent: a complete 200 response otherwise arrives cut
+     off or is refused by the HTTP server *)
+  match po_clen o with
+  | None => true
+  | Some n => negb (Z.eqb (po_code o) 200) || po_aborted o || write_failed o || N.eqb n (N.of_nat (length (po_body o)))
   end.
 
 (* ---- C13 ---- *)
